@@ -335,11 +335,13 @@ theorem C13_crop_pnm_all {α} (f : PixFmt α) (isRgb convert : Bool) (file : Byt
           exact ok_crop_id _ _ _ _ s _ _ img hfull hin
         · cases hfull
 
-/-! ### RLE BMP: the clause FAILS on the current tree
+/-! ### RLE BMP, the reader before /repo commit 76f86d6 (`rleFixed = false`; selected by checks/C13.py when the tree's source still
+    has `Buf_type buf( this->_settings._dim.x )`): the crop clause FAILS.  The reader as fixed: `C13_crop_bmp_rle_fixed`,
+    `C13_crop_bmp_all … rleFixed = true` above.
 
--- OPEN (not proven; false on the current tree, witness below):
---   theorem C13_crop_bmp_rle : bmpRead init file Settings.full want = .ok img → bmpIsRle file = true → s.Inside img.w img.h →
---       bmpRead init file s want = .ok (crop s img)
+-- OPEN (not proven; false for the old reader, witnesses below):
+--   theorem C13_crop_bmp_rle_old : bmpRead init file Settings.full want false = .ok img → bmpIsRle file = true → s.Inside img.w img.h →
+--       bmpRead init file s want false = .ok (crop s img)
 -/
 
 /-- a 1×2 RLE8 file (2-entry palette: row 0 = entry 1, row 1 = entry 0): stored bottom-up as `01 00 00 00 | 01 01 00 00 | 00 01` -/
